@@ -37,7 +37,7 @@ def run(hs, label):
             st["missing"] += 1
             bad.append((h, {"status": "missing"}, il, ml))
             continue
-        c = engine.compare_history(h, ml, il, lambda op: True)
+        c = engine.compare_history(h, ml, il, lambda op: True, strict_image=True)
         st[c["status"]] += 1
         stats["calls_compared"] += c.get("compared", 0)
         if c["status"] != "agree":
